@@ -9,6 +9,7 @@ import (
 	"sync"
 	"sync/atomic"
 	"testing"
+	"time"
 
 	"github.com/andydunstall/piko/server/cluster"
 
@@ -86,14 +87,14 @@ func TestC06(t *testing.T) {
 		N := c.Int("nodes", 2, 4)
 		cl, err := StartCluster(N, true, nil)
 		if err != nil {
-			c.Fatalf("harness: start cluster: %v", err)
+			c.Harnessf("start cluster: %v", err)
 		}
 		defer cl.Stop()
 		relays := make([]*Relay, N)
 		for i, n := range cl.Nodes {
 			r, err := NewRelay(n.ProxyAddr())
 			if err != nil {
-				c.Fatalf("harness: relay: %v", err)
+				c.Harnessf("relay: %v", err)
 			}
 			relays[i] = r
 			defer r.Close()
@@ -110,21 +111,34 @@ func TestC06(t *testing.T) {
 			if c.Chance("hasUpstream", 1, 2) {
 				u, err := ConnectUpstream(context.Background(), n, fmt.Sprintf("u%d", i), ep, kind, UpstreamOpts{})
 				if err != nil {
-					c.Fatalf("harness: connect upstream: %v", err)
+					c.Harnessf("connect upstream: %v", err)
 				}
 				hasUp[i] = u
 				defer u.Disconnect()
 			}
 		}
+		// some upstreams announce go-away (listener Close): still registered, but the
+		// first dial reports that they are gone and the proxy removes them
+		goaway := make([]bool, N)
 		for i, n := range cl.Nodes {
 			want := 0
 			if hasUp[i] != nil {
 				want = 1
 			}
 			if !Eventually(Deadline(), func() bool { return n.Srv.ClusterState().LocalEndpointListeners(ep) == want }) {
-				c.Fatalf("harness: upstream registration on %s not visible", n.ID)
+				c.Harnessf("upstream registration on %s not visible", n.ID)
 			}
 		}
+		for i := range cl.Nodes {
+			if hasUp[i] != nil && proto == "http" && c.Chance("goAway", 1, 3) {
+				goaway[i] = true
+				hasUp[i].MarkGone()
+				_ = hasUp[i].Listener().Close()
+				c.Stepf("upstream of %s announced go-away", cl.Nodes[i].ID)
+				c.Class("go-away-upstream")
+			}
+		}
+		time.Sleep(150 * time.Millisecond) // let the go-away frames reach the servers
 		// believed views
 		believes := make([][]bool, N) // believes[i][j]: i thinks j serves ep (active, count>0)
 		stale, cycle := false, false
@@ -179,6 +193,10 @@ func TestC06(t *testing.T) {
 				if fwdHeader {
 					hdr["x-piko-forward"] = "true"
 				}
+				if conn := c.OneOf("connectionHeader", "", "", "", "x-piko-forward", "close, X-Piko-Forward", "keep-alive, x-piko-endpoint"); conn != "" {
+					hdr["Connection"] = conn
+					c.Class("client-connection-header")
+				}
 				res := Get(cl.Nodes[entry], ep, c.OneOf("mode", "host", "header"), "", hdr)
 				status, stampUp, terr = res.Status, res.Upstream, res.Err
 				if res.Err == nil && res.Status == 200 && res.Endpoint != ep {
@@ -215,6 +233,12 @@ func TestC06(t *testing.T) {
 				anyBelieved = anyBelieved || believes[entry][j]
 			}
 			switch {
+			case hasUp[entry] != nil && goaway[entry]:
+				// the only local upstream is gone: 502, no hop, and it is deregistered by this attempt
+				if hops != 0 || status != http.StatusBadGateway {
+					c.Fatalf("C06: entry node %s's local upstream has announced go-away; the request ended status=%d upstream=%q hops=%d, want 502 with no hop", cl.Nodes[entry].ID, status, stampUp, hops)
+				}
+				goaway[entry], hasUp[entry] = false, nil
 			case hasUp[entry] != nil:
 				if hops != 0 || status != 200 || stampUp != hasUp[entry].ID {
 					c.Fatalf("C06: entry node %s has a local upstream %s but the request ended status=%d upstream=%q hops=%d", cl.Nodes[entry].ID, hasUp[entry].ID, status, stampUp, hops)
@@ -231,7 +255,12 @@ func TestC06(t *testing.T) {
 				if hops != 1 || hit < 0 || !believes[entry][hit] {
 					c.Fatalf("C06: %s should forward to one believed server; hops=%d target=%d", cl.Nodes[entry].ID, hops, hit)
 				}
-				if hasUp[hit] != nil {
+				if hasUp[hit] != nil && goaway[hit] {
+					if status != http.StatusBadGateway {
+						c.Fatalf("C06: forwarded to %s whose upstream has announced go-away: status=%d upstream=%q, want 502 and no further hop", cl.Nodes[hit].ID, status, stampUp)
+					}
+					goaway[hit], hasUp[hit] = false, nil
+				} else if hasUp[hit] != nil {
 					if status != 200 || stampUp != hasUp[hit].ID {
 						c.Fatalf("C06: forwarded to %s which has upstream %s, but ended status=%d upstream=%q", cl.Nodes[hit].ID, hasUp[hit].ID, status, stampUp)
 					}
